@@ -165,6 +165,45 @@ def rule_a(ctx):
                         ok = False
         rep.add('C06.a', '%s _trigger_next_request_n / requests the limit' % pkg, f, ok and seen > 0,
                 'request(limit_rate)' if ok and seen else 'does not request exactly limit_rate')
+        # ... and it is woken exactly when a full batch of that size has been consumed: the subscriber's trigger
+        # compares its received count with the limit it was constructed with (stored unmodified)
+        c = mod.classes['RxSubscriber'][-1]
+        init = c.methods['__init__']
+        lim_attr = None
+        for p in ctx.paths(init, c):
+            for e in p.events:
+                if e.kind == 'store' and e.data['target'][0] == 'attr' and \
+                        strip_epoch(e.data['value'].term) == ('param', init.qualname, 'limit_rate'):
+                    lim_attr = e.data['target'][2]
+        on = c.methods['on_next']
+        ok = lim_attr is not None
+        why = 'the subscriber does not keep the limit it was constructed with' if not ok else ''
+        n_set = 0
+        for p in ctx.paths(on, c, args={'is_complete': const(False)}):
+            sets = [e for e in p.events if e.kind == 'call' and e.data.get('name') == 'set' and
+                    e.data.get('recv') is not None and 'get_next_n' in repr(e.data['recv'].term)]
+            for e in sets:
+                n_set += 1
+                gate = [x for x in p.events if x.kind == 'cond' and x.seq < e.seq and x.data['key'][0] == 'eq' and
+                        x.data['value'] is True]
+                good = False
+                for x in gate:
+                    sides = [strip_epoch(t) for t in x.data['key'][1:3]]
+                    if ('attr', ('self',), lim_attr) in sides and any(
+                            t[0] in ('attr', 'op') and '_received' in repr(t) for t in sides):
+                        good = True
+                if not good:
+                    ok = False
+                    why = ('the next REQUEST_N is triggered when the received count equals something other than the '
+                           'limit (%s): credit outstanding at the peer can exceed the request limit' % (
+                               [fmt_term(x.data['key'])[:80] for x in gate][-1:] or 'no test'))
+                reset = [s_ for s_ in p.events if s_.kind == 'store' and s_.data['target'][0] == 'attr' and
+                         '_received' in s_.data['target'][2] and s_.data['value'].is_const() and
+                         s_.data['value'].const == 0]
+                if not reset:
+                    ok, why = False, 'the received count is not reset when the next batch is requested'
+        rep.add('C06.a', '%s RxSubscriber.on_next / next batch triggered after exactly limit_rate elements' % pkg, on,
+                ok and n_set > 0, why or 'get_next_n.set() when received == self.%s, count reset' % lim_attr)
     # 6. clients: the same request_limit configures the initial request-n and the re-request size
     for spec in ('rsocket.reactivex.reactivex_client:ReactiveXClient', 'rsocket.rx_support.rx_rsocket:RxRSocket'):
         c = ctx.repo.cls(spec)
